@@ -69,7 +69,7 @@ class C20(diffcheck.DiffProp):
              "read ++ the bytes in the pipe ++ the bytes not yet written = the data, end of file is reported only after the "
              "writer closed and everything was read, a fair schedule delivers everything; the three streams do not interfere "
              "and the echo system (parent -> cat -> parent, both directions active) returns exactly what was written; a "
-             "blocked producer is exactly one facing a full pipe; (2) every label sequence accepted by the wait state machine "
+             "blocked producer is exactly one facing a full pipe; an echoing child never exits unless its stdin gets closed; (2) every label sequence accepted by the wait state machine "
              "of compio-process (pidfd readiness then child.wait(), or blocking waitpid on the pool) delivers the status at "
              "most once, equal to the status the child exited with, after the exit, with nothing enabled afterwards, and "
              "within four steps once the child has exited. Tied to the code by running real child processes (sh/yes/head/cat) "
@@ -95,13 +95,14 @@ class C20(diffcheck.DiffProp):
     harness_bin = "c20"
     package = "rt"
     gen = gen_c20
-    counts = {"quick": 40, "thorough": 400}
+    counts = {"quick": 40, "thorough": 240}
     shards = 4
     thorough_release = False
     rule = ("cases = corpus (witnesses: single large stdin write through cat on polling, wait-before-drain above the pipe "
             "capacity, every signal, exit codes 0/255) + random scenarios, each on both drivers: payloads 0..4 MiB below/at/"
             "above the 64 KiB pipe capacity on stdin/stdout/stderr, read/write chunk sizes 1 byte..whole payload, orders "
-            "wait-first / drain-first / concurrent / wait_with_output, exit codes 0..255 and 8 signals, buffer reuse, "
+            "wait-first / drain-first / concurrent / wait_with_output / wait and wait_with_output with the ChildStdin left "
+            "inside the Child, exit codes 0..255 and 8 signals, buffer reuse, "
             "exit delays; non-trivial = the scenario completed and moved bytes or returned a non-zero status; distinct = "
             "distinct case lines")
     trusted_base = [
